@@ -46,6 +46,47 @@ def cases_select(tier):
                     yield "n%d/%s/%d-%d" % (n, "".join("F" if f else "o" for f in failed), first, last), {"n": n, "failed": failed, "first": first, "last": last}
 
 
+def cases_select_large(tier):
+    """Large ensembles: bounded run-time checking only (the proof is per enumerated size)."""
+    for n in (8, 17, 24, 40) + ((64, 100) if tier == "thorough" else ()):
+        for nf in (0, 3):
+            failed = [(i * 7 + 3) % n < nf for i in range(n)]
+            for first, last in ((0, 0), (2, n // 2), (n - 4, n - 1), (0, n - 1)):
+                yield "large/n%d/failures=%d/%d-%d" % (n, nf, first, last), {"n": n, "failed": failed, "first": first, "last": last, "__concrete_only__": True}
+
+
+def cases_select_sweep(tier):
+    """EVERY rank window [first, last] of every ensemble size up to 48 (100 in the thorough tier), with and without failures: one
+    bounded run per size (run-time checking only; window arithmetic that goes wrong at particular sizes or ranks has nowhere to hide
+    below the bound)."""
+    for n in range(7, 49 if tier == "quick" else 101):
+        for nf in (0, 3):
+            yield "sweep/n%d/failures=%d/all-windows" % (n, nf), {"n": n, "failed": [(i * 7 + 3) % n < nf for i in range(n)], "__concrete_only__": True}
+
+
+def scn_select_sweep(T, case):
+    f = T.func(M, "_sort_and_select")
+    n, failed = case["n"], case["failed"]
+    vals = T.real("values", (n,))
+    cfg = T.real("weights", (n,), lo=0.001)
+    m = n - sum(failed)
+    # (an index-dependent irrational offset makes the drawn values distinct: ranks are unambiguous)
+    v, c, fl = np.asarray(vals, dtype=float) + np.sqrt(2.0) * 1e-5 * np.arange(n), np.asarray(cfg, dtype=float), np.array(failed, dtype=bool)
+    vals = v
+    T.assume(len(set(v[~fl].tolist())) == m)
+    # the specification evaluated directly (concrete runs only): rank = number of successful members with a smaller value
+    rank = np.array([int(np.sum(v[~fl] < v[i])) if not fl[i] else -1 for i in range(n)])
+    bad = []
+    for first in range(m):
+        for last in range(first, n):
+            w = np.asarray(f(vals, cfg, fl.copy(), first, last), dtype=float)
+            want = np.where((rank >= first) & (rank <= last), c, 0.0)
+            if w.shape != (n,) or not np.array_equal(w, want):
+                bad.append((first, last))
+    T.prove("C05.select_sweep.weights_are_the_configured_ones_exactly_on_the_ranks_of_the_window_and_zero_elsewhere", not bad,
+            "n=%d successful=%d wrong windows (first, last): %s" % (n, m, bad[:8]))
+
+
 def scn_select(T, case):
     f = T.func(M, "_sort_and_select")
     n, failed = case["n"], case["failed"]
@@ -247,6 +288,8 @@ def scn_steps(T, case):
 
 SCENARIOS = [
     Scenario("sort_and_select", scn_select, cases_select, {"quick": 4, "thorough": 40}),
+    Scenario("sort_and_select_large_ensembles_bounded", scn_select, cases_select_large, {"quick": 6, "thorough": 40}),
+    Scenario("sort_and_select_every_window_of_every_size_bounded", scn_select_sweep, cases_select_sweep, {"quick": 1, "thorough": 3}),
     Scenario("filter", scn_filter, cases_filter, {"quick": 10, "thorough": 60}),
     Scenario("check_range", scn_range, cases_range, {"quick": 1, "thorough": 1}),
     Scenario("filter_rows", scn_rows, cases_rows, {"quick": 3, "thorough": 20}),
@@ -259,6 +302,6 @@ MANIFEST = {
     "text": "Deductive: the rank-window post-condition of C05 is discharged by z3 on the real _sort_and_select / sort filter methods / _check_range / "
             "get_realization_weights and the row mapping of _calculate_filtered_realization_weights, for all real sort values (ties included), weights, "
             "every failure mask and window; complete per enumerated ensemble size (n <= 3 quick, <= 6 thorough) and per filter-index map over <= 2 objectives, 2 constraints, 2 filters.",
-    "note": "plus the filter inside the real EnsembleEvaluator (real constructors, failures in one column only, unused filter first, repeated calls, prior instances); np.argsort by contract (a sorting permutation, NaN last); floats as reals; bounded in shape only; pydantic option parsing in __init__ not under contract (only _check_range)",
+    "note": "plus the filter inside the real EnsembleEvaluator (real constructors, failures in one column only, unused filter first, repeated calls, prior instances); np.argsort by contract (a sorting permutation, NaN last); floats as reals; bounded in shape only (proof per size <= 3/6; every window of every size up to 48/100 by bounded run-time checking); pydantic option parsing in __init__ not under contract (only _check_range)",
     "technique": "contract-based deductive verification: symbolic execution of the real source under sidecar contracts, VCs discharged by z3/cvc5; bounded run-time contract checking as stand-in",
 }
